@@ -4,7 +4,9 @@ Model of the key-management commands (C12): rotate.Bootstrap, rotate.Key, rotate
 cmd.RotateCommand.InitContext's serial defaulting, the memkm/localkm key managers over the nonprod
 signer, the two certificate templates (sops.GoogleCertificateTemplate, certs.TemplateFromCert) and the
 two shipped certificate authorities (memca: mutations apply immediately; gcsca: mutation applied by
-Finalize with the no-clobber rule).  Core-only.
+Finalize with the no-clobber rule, and — after the two "fix:" commits to gcsca.upload — the refusal of an
+object recorded for another key version and of recording an object that keep_going left unwritten;
+`Cfg.guard = false` is upload as it was before them).  Core-only.
 
 Abstractions (stated, tied by the correspondence run):
 * RSA keys are key ids (a counter); a certificate records the key that signed it (`signerKey`), so
@@ -207,6 +209,8 @@ structure Cfg where
   km : KMKind
   seq : Bool      -- rotate.Key stops at the first error and finalizes before destroying (Gen.rotateSequential)
   cli : Bool      -- commands go through the nonprod CLI (localca.InitContext pre-check)
+  guard : Bool    -- gcsca.upload refuses an object recorded for another key version and never records an
+                  -- object it did not write (the code after its two "fix:" commits; false = before them)
 
 structure Flags where
   overwrite : Bool
@@ -265,21 +269,34 @@ def writeIfAllowed (f : Flags) (ca : CA) (p : ObjKey) (c : Cert) : Option CA :=
     (if f.keepGoing then some ca else none)
   else some { ca with objects := put ca.objects p c }
 
-/-- go: gcsca.upload -/
-def upload (f : Flags) (ca : CA) (n : KName) (c : Cert) : Option CA :=
-  match get ca.entries n with
-  | some p => if f.keepGoing then some ca else writeIfAllowed f ca p c
-  | none =>
-    match writeIfAllowed f ca (certPath c) c with
-    | some ca' => some { ca' with entries := put ca'.entries n (certPath c) }
-    | none => none
+/-- go: gcsca.otherKeyVersionOf — the manifest records object `p` for a key version other than `n` -/
+def heldByOther (ca : CA) (p : ObjKey) (n : KName) : Bool :=
+  ca.entries.any fun e => e.2 == p && e.1 != n
 
-def uploadAll (f : Flags) : CA → List (KName × Cert) → CA × Bool
+/-- go: gcsca.upload.  `g` (= `Cfg.guard`): with the two refusals added by the "fix:" commits — an object
+    the manifest records for another key version is refused before anything is written; an existing
+    object that keep_going (without overwrite) left unwritten is not recorded but reported as an error. -/
+def upload (g : Bool) (f : Flags) (ca : CA) (n : KName) (c : Cert) : Option CA :=
+  match get ca.entries n with
+  | some p =>
+    if f.keepGoing then some ca
+    else if g && heldByOther ca p n then none
+    else writeIfAllowed f ca p c
+  | none =>
+    if g && heldByOther ca (certPath c) n then none
+    else
+      match writeIfAllowed f ca (certPath c) c with
+      | some ca' =>
+        if g && (get ca.objects (certPath c)).isSome && !f.overwrite then none
+        else some { ca' with entries := put ca'.entries n (certPath c) }
+      | none => none
+
+def uploadAll (g : Bool) (f : Flags) : CA → List (KName × Cert) → CA × Bool
   | ca, [] => (ca, true)
   | ca, (n, c) :: rest =>
-    match upload f ca n c with
+    match upload g f ca n c with
     | none => (ca, false)
-    | some ca' => uploadAll f ca' rest
+    | some ca' => uploadAll g f ca' rest
 
 /-- go: gcsca.writeIfAllowed on RootPath -/
 def writeRoot (f : Flags) (ca : CA) (c : Cert) : Option CA :=
@@ -300,9 +317,9 @@ def abortTo (stored written : CA) : CA :=
 
 /-- go: gcsca.CertificateAuthority.Finalize (the trailing `len(names) > 0` check is unreachable:
     an existing object without overwrite and without keep_going already failed in writeIfAllowed) -/
-def gcsFinalize (f : Flags) (ca : CA) (m : Mut) : CA × Bool :=
-  match uploadAll f { ca with primaryRoot := m.pr.getD ca.primaryRoot,
-                              primarySigning := m.ps.getD ca.primarySigning } m.certs with
+def gcsFinalize (g : Bool) (f : Flags) (ca : CA) (m : Mut) : CA × Bool :=
+  match uploadAll g f { ca with primaryRoot := m.pr.getD ca.primaryRoot,
+                                primarySigning := m.ps.getD ca.primarySigning } m.certs with
   | (ca1, false) => (abortTo ca ca1, false)
   | (ca1, true) =>
     match m.root with
@@ -370,7 +387,7 @@ def bootPutRoot (cfg : Cfg) (view : CA) (rc : Cert) : CA :=
 def bootCommit (cfg : Cfg) (f : Flags) (stored view2 : CA) (rc sc : Cert) : CA × Bool :=
   match cfg.ca with
   | .memca => (memPut view2 firstName sc, true)
-  | .gcsca => gcsFinalize f stored ⟨some rootName, some firstName, [(rootName, rc), (firstName, sc)], some rc⟩
+  | .gcsca => gcsFinalize cfg.guard f stored ⟨some rootName, some firstName, [(rootName, rc), (firstName, sc)], some rc⟩
 
 /-- go: rotate.Bootstrap after both keys were created (`km`: key manager holding them) -/
 def bootCerts (cfg : Cfg) (f : Flags) (a : BootArgs) (km : KM) (rootKey firstKey : Nat) (stored : CA) : CA × Bool :=
@@ -437,7 +454,7 @@ def rotCerts (kver : KName) : Option Cert → List (KName × Cert)
 def caAfterRotate (cfg : Cfg) (f : Flags) (ca : CA) (kver : KName) (c : Option Cert) : CA × Bool :=
   match cfg.ca with
   | .memca => ({ memAdd ca kver c with primarySigning := kver }, true)
-  | .gcsca => gcsFinalize f ca ⟨none, some kver, rotCerts kver c, none⟩
+  | .gcsca => gcsFinalize cfg.guard f ca ⟨none, some kver, rotCerts kver c, none⟩
 
 /-- go: updatePrimaryAndDestroy's destruction of the previous version (skipped when there is none) -/
 def destroyOld (km : KM) (cur : KName) : KM := if cur = noName then km else km.destroy cur
